@@ -1,6 +1,6 @@
 //! C16 - lists keep their order and find every key.
 //!
-//! Bounded-exhaustive: every list of length 0..N over the six item kinds {number, text, bare symbol, pair keyed
+//! Bounded-exhaustive: every list of length 0..N over the seven item kinds {number, text, bare symbol, unit, pair keyed
 //! by a symbol, pair keyed by a number, nested list}, every ordered choice of distinct key symbols from an
 //! adversarial pool for the symbol-keyed slots, a set of pre-existing values in the data object (shifts every
 //! address), both data implementations; every concatenation of two (three) such short lists; and a deterministic
@@ -35,9 +35,11 @@ enum K {
     KPair,
     NPair,
     Nested,
+    /// the unit value as an item (its address is 0 on SimpleGarnishData: a slot value, not an empty slot)
+    Unit,
 }
 
-const KINDS: [K; 6] = [K::Num, K::Text, K::Sym, K::KPair, K::NPair, K::Nested];
+const KINDS: [K; 7] = [K::Num, K::Text, K::Sym, K::KPair, K::NPair, K::Nested, K::Unit];
 const UNKEYED_CYCLE: [K; 5] = [K::Num, K::Text, K::Sym, K::NPair, K::Nested];
 
 impl K {
@@ -49,6 +51,7 @@ impl K {
             K::KPair => "pair-keyed-by-symbol",
             K::NPair => "pair-keyed-by-number",
             K::Nested => "nested-list",
+            K::Unit => "unit",
         }
     }
     fn short(self) -> &'static str {
@@ -59,6 +62,7 @@ impl K {
             K::KPair => "K",
             K::NPair => "p",
             K::Nested => "l",
+            K::Unit => "u",
         }
     }
     fn from_name(s: &str) -> Option<K> {
@@ -128,6 +132,7 @@ fn item_value(k: K, p: usize, key: Option<u64>) -> V {
         // a pair whose (number) key is numerically equal to pool symbols: must never answer a lookup
         K::NPair => V::pair(V::Int(p), V::Int(2000 + p)),
         K::Nested => V::List(vec![V::Int(3000 + p), V::pair(V::Sym(NESTED_SYM), V::Int(4000 + p))]),
+        K::Unit => V::Unit,
     }
 }
 
@@ -1100,7 +1105,7 @@ fn build_layout(tier: Tier) -> Layout {
         let elements = chunks * npads as u64 * 2;
         entries.push(Entry { seg, label: shape_label(&parts), form, parts, keys: Keys::Perms { k, perms }, elements });
     };
-    // 1. every list up to max_len over the six kinds
+    // 1. every list up to max_len over the seven kinds
     for len in 0..=max_len {
         for s in shapes(&KINDS, len) {
             push_perm("lists", Form::List, vec![s], pads.len(), pool.len());
@@ -1289,7 +1294,7 @@ impl Property for C16 {
         );
         Meta {
             rule: format!(
-                "every list of length 0..{n} over the item kinds {{number, text, bare symbol, pair keyed by symbol, pair keyed by number, nested list}} x every ordered choice of distinct key symbols from {pool} for the symbol-keyed slots x {pads} pre-existing values in the data object x {{simple, basic}}; every concatenation of {cat} and of three lists of length <= 1 in both nestings, same key choices x {{0,1,7}} pre-existing values; {extra} with 8 keyed/unkeyed masks x 8 key families (multiples of the length ascending and descending, len-1 modulo len, ascending, descending, extremes interleaved, top of the u64 range colliding modulo len, powers of two). Per case: get_list_len, get_list_item at every index 0..n-1 and at n, n+1, 2^31-1, get_list_item_iter with full extents, get_list_item_with_symbol for every key, every key +-1, the pool and a symbol that only occurs inside nested lists; the same list built with the runtime's make_list and read through access / apply (indexes also -1 and i32::MIN) and access_length_internal; concatenations through get_concatenation_iter, access and access_length_internal. One evaluation = one case (one concrete list or concatenation in one data object). A case is non-trivial when it holds at least one pair keyed by a symbol; distinct by (implementation, pre-existing values, form, item kinds, keys)."
+                "every list of length 0..{n} over the item kinds {{number, text, bare symbol, unit, pair keyed by symbol, pair keyed by number, nested list}} x every ordered choice of distinct key symbols from {pool} for the symbol-keyed slots x {pads} pre-existing values in the data object x {{simple, basic}}; every concatenation of {cat} and of three lists of length <= 1 in both nestings, same key choices x {{0,1,7}} pre-existing values; {extra} with 8 keyed/unkeyed masks x 8 key families (multiples of the length ascending and descending, len-1 modulo len, ascending, descending, extremes interleaved, top of the u64 range colliding modulo len, powers of two). Per case: get_list_len, get_list_item at every index 0..n-1 and at n, n+1, 2^31-1, -1 and -2^31, get_list_item_iter with full extents, get_list_item_with_symbol for every key, every key +-1, the pool and a symbol that only occurs inside nested lists; the same list built with the runtime's make_list and read through access / apply (indexes also -1 and i32::MIN) and access_length_internal; concatenations through get_concatenation_iter, access and access_length_internal. One evaluation = one case (one concrete list or concatenation in one data object). A case is non-trivial when it holds at least one pair keyed by a symbol; distinct by (implementation, pre-existing values, form, item kinds, keys)."
             ),
             assumptions: vec![
                 "items are compared by value read back through the trait getters, not by address".into(),
